@@ -105,13 +105,14 @@ type Contracts struct {
 	Lemmas  []*Axiom
 	Events  map[string]*EventDecl
 	Ghosts  map[string]*GhostField // key Struct.Name
+	GhostMaps map[string]*GhostField // ghost map name -> (Struct = key sort, Sort = value sort)
 	Files   []string
 	Assumes []string // any 'assume' found in contract files (reported)
 }
 
 func NewContracts() *Contracts {
 	return &Contracts{Funcs: map[string]*FuncContract{}, Preds: map[string]*Pred{}, Specs: map[string]*SpecFn{},
-		Events: map[string]*EventDecl{}, Ghosts: map[string]*GhostField{}}
+		Events: map[string]*EventDecl{}, Ghosts: map[string]*GhostField{}, GhostMaps: map[string]*GhostField{}}
 }
 
 var keywords = map[string]bool{"func": true, "requires": true, "ensures": true, "assigns": true, "elems": true, "emits": true, "emit": true,
@@ -426,6 +427,12 @@ func (cs *Contracts) parseLines(lines []rawLine, trusted bool) error {
 		case kw == "ghost":
 			// ghost field xmpp.Session.stanzasSeen Int
 			f := strings.Fields(rest)
+			if len(f) == 4 && f[0] == "map" {
+				// ghost map written Ref Str
+				cs.GhostMaps[f[1]] = &GhostField{Name: f[1], Struct: f[2], Sort: f[3]}
+				cur = nil
+				continue
+			}
 			if len(f) != 3 || f[0] != "field" {
 				return errf("bad ghost decl %q", rest)
 			}
